@@ -33,18 +33,26 @@ def async_reduce(
     return an awaitable.
     """
     accumulator: AwaitableOrValue[U] = initial_value
-    for value in values:
+    remaining_values = iter(values)
+    for value in remaining_values:
         if is_awaitable(accumulator):
-
-            async def async_callback(
+            # Continue iteratively within one coroutine as soon as the accumulator
+            # has become awaitable: chaining one coroutine per value would make
+            # the depth of the awaited chain grow with the number of values.
+            async def async_reduce_remaining(
                 current_accumulator: Awaitable[U], current_value: T
             ) -> U:
                 result: AwaitableOrValue[U] = callback(
                     await current_accumulator, current_value
                 )
-                return await result if is_awaitable(result) else result  # type: ignore
+                if is_awaitable(result):
+                    result = await result
+                for next_value in remaining_values:
+                    result = callback(cast("U", result), next_value)
+                    if is_awaitable(result):
+                        result = await result
+                return cast("U", result)
 
-            accumulator = async_callback(cast("Awaitable[U]", accumulator), value)
-        else:
-            accumulator = callback(cast("U", accumulator), value)
+            return async_reduce_remaining(cast("Awaitable[U]", accumulator), value)
+        accumulator = callback(cast("U", accumulator), value)
     return accumulator
